@@ -58,6 +58,7 @@ type c15Call struct {
 	ReadOnlyNoDocAction           bool // accepted-without-effect is an observation only
 	Msgs                          []c15Msg
 	Req                           string
+	buildTarget                   string           // the target handed to the driver's Build
 	delta                         map[string]int64 // messages an ALLOWED execution appends, per partition
 	prep                          func() error
 	run                           func(r *c15Res)
@@ -71,10 +72,10 @@ func (c *c15Call) msgDenied(pol *c15Policy, m c15Msg) bool {
 
 func (c *c15Call) decide(pol *c15Policy) c15Dec {
 	if c.GroupRPC {
-		switch c.Client {
-		case c15Stranger:
+		switch {
+		case c15Lineless(c.Client):
 			return c15Denied
-		case c15Admin:
+		case c.Client == c15Admin:
 			return c15Allowed
 		}
 		return c15Undet
@@ -691,20 +692,29 @@ func c15CheckMethodCoverage(rep *kit.Report) []string {
 }
 
 // genCalls: for every method and shape one denied, one allowed (admin when no
-// seeded client qualifies) and now and then one undetermined case.
+// seeded client qualifies) and now and then one undetermined case.  The
+// line-less caller of a denied case is, half the time, not the stranger (a
+// named client without lines) but one of the identity-less / look-alike
+// callers of c15IdentityKinds; and an identity sweep adds, for every other
+// method (alternating from set to set), one call by the next kind in rotation,
+// so that every method x kind pair comes up regularly whatever the seed.
 func (w *c15World) genCalls(methods []string, rng *kit.RNG) []*c15Call {
 	var out []*c15Call
+	build := func(m, shape, cli, t string, r *kit.RNG) *c15Call {
+		c := c15Drivers[m].Build(w, shape, cli, t, r)
+		c.Method, c.Shape, c.Client, c.buildTarget = m, shape, cli, t
+		if c.Target == "" {
+			c.Target = t
+		}
+		return c
+	}
 	for _, m := range methods {
 		d := c15Drivers[m]
 		for _, shape := range d.Shapes {
 			var den, all, und []*c15Call
 			for _, t := range d.Targets(shape) {
 				for _, cli := range append(append([]string{}, c15Cli...), c15Stranger) {
-					c := d.Build(w, shape, cli, t, rng.Fork(uint64(len(out))))
-					c.Method, c.Shape, c.Client = m, shape, cli
-					if c.Target == "" {
-						c.Target = t
-					}
+					c := build(m, shape, cli, t, rng.Fork(uint64(len(out))))
 					switch c.decide(w.pol) {
 					case c15Denied:
 						den = append(den, c)
@@ -717,25 +727,39 @@ func (w *c15World) genCalls(methods []string, rng *kit.RNG) []*c15Call {
 			}
 			if len(den) > 0 {
 				// prefer a client that holds other lines over the stranger half the time
-				out = append(out, den[rng.Intn(len(den))])
+				c := den[rng.Intn(len(den))]
+				if c.Client == c15Stranger && rng.Chance(1, 2) {
+					kind := c15IdentityKinds[rng.Intn(len(c15IdentityKinds))]
+					c = build(m, shape, kind, c.buildTarget, rng.Fork(uint64(len(out))+1000))
+				}
+				out = append(out, c)
 			}
 			if len(all) > 0 {
 				out = append(out, all[rng.Intn(len(all))])
 			} else {
 				ts := d.Targets(shape)
 				t := ts[rng.Intn(len(ts))]
-				c := d.Build(w, shape, c15Admin, t, rng.Fork(77))
-				c.Method, c.Shape, c.Client = m, shape, c15Admin
-				if c.Target == "" {
-					c.Target = t
-				}
-				out = append(out, c)
+				out = append(out, build(m, shape, c15Admin, t, rng.Fork(77)))
 			}
 			if len(und) > 0 && rng.Chance(1, 3) {
 				out = append(out, und[rng.Intn(len(und))])
 			}
 		}
 	}
+	// identity sweep
+	rot := int(kit.Seed()%uint64(len(c15IdentityKinds))) + w.kindRot
+	for mi, m := range methods {
+		if (mi+w.sweeps)%2 != 0 {
+			continue
+		}
+		d := c15Drivers[m]
+		shape := d.Shapes[rng.Intn(len(d.Shapes))]
+		ts := d.Targets(shape)
+		t := ts[rng.Intn(len(ts))]
+		kind := c15IdentityKinds[(rot+w.sweeps/2+mi/2+mi)%len(c15IdentityKinds)]
+		out = append(out, build(m, shape, kind, t, rng.Fork(uint64(len(out))+2000)))
+	}
+	w.sweeps++
 	// seeded order: the state left by one call is the start of the next
 	for i := len(out) - 1; i > 0; i-- {
 		j := rng.Intn(i + 1)
@@ -831,7 +855,7 @@ func (w *c15World) exec(set int, call *c15Call) {
 		}
 		objs = append(objs, call.Target)
 		return map[string]interface{}{
-			"seed": kit.Seed(), "policy_set": set, "policy_generation": w.pol.Gen, "client": call.Client,
+			"seed": kit.Seed(), "policy_set": set, "policy_generation": w.pol.Gen, "client": call.Client, "client_identity": c15DescribeClient(call.Client),
 			"client_policy_lines_on_these_resources": w.pol.linesOf(call.Client, objs...), "method": call.Method, "shape": call.Shape,
 			"request": call.Req, "expected": dec.String(), "returned_error": fmt.Sprint(res.err), "state_diff": c15DescribeDiff(d0, d1, diff),
 			"appended": published, "delivered_to_standing_subscriptions": delivered, "messages_handed_to_the_caller": res.delivered,
@@ -870,6 +894,11 @@ func (w *c15World) exec(set int, call *c15Call) {
 	rep.Nontrivial(call.Method + "/" + call.Shape + "/denied")
 	if call.Client == c15Stranger {
 		rep.Count("denied_stranger", 1)
+	}
+	kind := c15IdentityKind(call.Client)
+	if kind != "" {
+		rep.Count("denied_identity/"+kind, 1)
+		rep.Nontrivial(call.Method + "/caller:" + kind + "/denied")
 	}
 	refused := res.err != nil
 	var notRefused []string
@@ -935,6 +964,10 @@ func (w *c15World) exec(set int, call *c15Call) {
 		return
 	}
 	what := fmt.Sprintf("%s: the client lacks the policy entry for this call (expected: refused, nothing changes). Observed: refused=%v err=%v", tag, refused, res.err)
+	if kind != "" {
+		what = fmt.Sprintf("%s: the caller (%s) holds no policy entry at all (expected: refused, nothing changes). Observed: refused=%v err=%v", tag, c15DescribeClient(call.Client), refused, res.err)
+		effect += ":caller=" + c15IdentityClass(call.Client)
+	}
 	if len(notRefused) > 0 {
 		what += fmt.Sprintf("; no error response for message(s) %v", notRefused)
 	}
@@ -956,7 +989,8 @@ func (w *c15World) exec(set int, call *c15Call) {
 func c15Assumptions(rep *kit.Report) {
 	rep.Assume("Authorisation is switched on the way an operator does it: the server is started with TLS key/cert (the repository's test certificates), TLSClientAuthz and generated model/policy files, so the casbin enforcer is the one startAPIServer builds. No TLS connection is made: calls are dispatched in-process through the generated gRPC service descriptor and the real AuthzUnaryInterceptor / AuthzStreamInterceptor, with peer info holding a verified chain whose leaf CommonName is the client id (what addUserContext reads). The TLS handshake itself and the gRPC transport are not exercised.")
 	rep.Assume("Expected decisions come from documentation/authentication_authorization.md and the repository's authz tests: action = method name, resource = stream name, '*' for FetchMetadata, the NATS subject for PublishToSubject, and additionally Publish on __cursors for SetCursor; the casbin model is the documented exact-match ACL model (a '*' policy line is literal). PublishAsync is decided per message with action Publish. FetchCursor by a client holding FetchCursor on the stream but not every line on __cursors is left undetermined (the documentation is ambiguous).")
-	rep.Assume("Consumer-group RPCs have no documented ACL action. They are judged only for a client with no policy line at all (must be refused, whatever the matching entry would be) and for the admin client holding the method name on group id, streams and '*' (must work); other clients are counted as undetermined. FetchConsumerGroupAssignments changes nothing and has no documented action: an accepted call by the stranger is counted as an observation (observed_unguarded_readonly), not as a violation.")
+	rep.Assume("The client id is what the documentation says it is: the CommonName of the verified client certificate. A caller for whom no such name exists (no peer info, no verified chain, certificate without CommonName) therefore matches no policy line and must be refused like any client without lines; nothing in the documentation exempts calls without an identity while ACLs are on. The documented casbin model compares the subject exactly, so 'ADMIN', 'admin ' and ' ' are clients without lines.")
+	rep.Assume("Consumer-group RPCs have no documented ACL action. They are judged only for a client with no policy line at all — the stranger and the identity-less callers — (must be refused, whatever the matching entry would be) and for the admin client holding the method name on group id, streams and '*' (must work); other clients are counted as undetermined. FetchConsumerGroupAssignments changes nothing and has no documented action: an accepted call by the stranger is counted as an observation (observed_unguarded_readonly), not as a violation.")
 	rep.Assume("A reload is awaited on its logical effect (the enforcer answers with the generation marker line of the new file), never by sleeping. 'Reload never took effect' is reported as a violation only under a stuck-state predicate: SIGHUP was seen on a twin signal.Notify channel (the runtime hands a signal to every registered channel in one pass, so the server's channel received it too), was re-delivered three times, and authorised round trips through NATS and Raft completed in between while the enforcer kept answering with the old policy; a signal that is not dispatched or a process that makes no progress is inconclusive.")
 	rep.Assume("'Nothing published' is decided by a fence: an authorised marker is published with AckPolicy ALL to every partition that is neither paused nor read-only; the server uses one NATS connection for all publishes, so anything the examined call put on a subject is sequenced before the marker and shows in the marker's offset. Paused / read-only partitions are compared by newest offset directly. Consumer and coordinator timeouts are set to one hour and auto-pause is off so that no wall-clock event changes the digest.")
 }
@@ -971,7 +1005,7 @@ func TestVerifC15ACL(t *testing.T) {
 	}
 	rep := kit.NewReport("C15", unit)
 	defer rep.Write()
-	rep.SetRule("Policy sets are generated from the seed: admin holds every line, 'stranger' none, c1..c3 each an independent random subset (density 1/4, 1/2 or 3/4) of {11 documented actions} x {3 live streams, their subjects, 2 deletable and 2 creatable stream names, '*', __cursors, a group id}. For every method of client.APIServer (listed by reflection; a method without a driver fails the run) and every request shape one denied and one allowed case (plus some undetermined ones) are chosen among clients x targets and executed in seeded order on one server; each policy set after the first is installed by rewriting the file and a real SIGHUP. A case is non-trivial when its decision is determined by the documented contract and the shape's precondition (paused partition, existing group subscriber, stored cursor, existing member) was established; signature = method/shape/decision.")
+	rep.SetRule("Policy sets are generated from the seed: admin holds every line, 'stranger' none, c1..c3 each an independent random subset (density 1/4, 1/2 or 3/4) of {11 documented actions} x {3 live streams, their subjects, 2 deletable and 2 creatable stream names, '*', __cursors, a group id}. For every method of client.APIServer (listed by reflection; a method without a driver fails the run) and every request shape one denied and one allowed case (plus some undetermined ones) are chosen among clients x targets and executed in seeded order on one server; each policy set after the first is installed by rewriting the file and a real SIGHUP. Callers without a usable identity are a further client class that holds no line under any set: a context without peer info, a peer without credentials, a TLS state whose presented certificate is called admin but has no (or an empty) verified chain, a verified certificate without CommonName (SAN-only; client id = empty string; also with an issuer called admin), and verified look-alikes of admin (other case, trailing space, blank name). They replace the stranger in half of the denied cases that fall on it, and an identity sweep adds per set one call by the next kind in rotation for every other method (alternating), so every method x kind pair comes up; all of these must be refused and leave the digest unchanged (signature method/caller:kind/denied). A case is non-trivial when its decision is determined by the documented contract and the shape's precondition (paused partition, existing group subscriber, stored cursor, existing member) was established; signature = method/shape/decision.")
 	c15Assumptions(rep)
 	methods := c15CheckMethodCoverage(rep)
 	sets := kit.Scale(40, 600)
@@ -998,6 +1032,7 @@ func TestVerifC15ACL(t *testing.T) {
 				rep.Inconc("server with authorisation did not come up: " + err.Error())
 				return
 			}
+			w.kindRot = shard * 4 // the shards walk through different kinds per method
 			rep.Count("policy_cold_loads", 1)
 		} else {
 			applied, err := w.setPolicy(pol)
@@ -1036,7 +1071,7 @@ func TestVerifC15ACL(t *testing.T) {
 func TestVerifC15Reload(t *testing.T) {
 	rep := kit.NewReport("C15", "reload")
 	defer rep.Write()
-	rep.SetRule("Each round generates a new policy set from the seed, rewrites the policy file and delivers a real SIGHUP while two goroutines keep calling read-only RPCs whose decision is the same under the old and the new set. After the enforcer answers with the new generation marker, FetchPartitionMetadata for every client x live stream and FetchMetadata for every client must be decided by the NEW set, and a few seeded full cases (state digest oracle) are run. A probe is non-trivial when its decision differs between the old and the new set; signature = probe/old→new.")
+	rep.SetRule("Each round generates a new policy set from the seed, rewrites the policy file and delivers a real SIGHUP while two goroutines keep calling read-only RPCs whose decision is the same under the old and the new set. After the enforcer answers with the new generation marker, FetchPartitionMetadata for every client x live stream and FetchMetadata for every client (c1..c3, the stranger and, per round, two identity-less / look-alike callers in rotation, which no set gives a line) must be decided by the NEW set, and a few seeded full cases (state digest oracle) are run. A probe is non-trivial when its decision differs between the old and the new set; signature = probe/old→new.")
 	c15Assumptions(rep)
 	methods := c15CheckMethodCoverage(rep)
 	rounds := kit.EnvInt("C15_ROUNDS", kit.Scale(100, 1000))
@@ -1059,10 +1094,21 @@ func TestVerifC15Reload(t *testing.T) {
 			probes = append(probes, probe{"FetchPartitionMetadata", cli, s, &client.FetchPartitionMetadataRequest{Stream: s, Partition: 0}})
 		}
 	}
+	baseProbes := probes
 	for round := 1; round <= rounds; round++ {
 		rng := base.Fork(uint64(round))
 		next := c15GenPolicy(rng.Fork(1), round)
 		old := w.pol
+		// two identity-less / look-alike callers per round, in rotation: no
+		// policy set gives them a line, before, during or after a reload
+		probes = append([]probe{}, baseProbes...)
+		for k := 0; k < 2; k++ {
+			cli := c15IdentityKinds[(int(kit.Seed()%9)+2*round+k)%len(c15IdentityKinds)]
+			probes = append(probes, probe{"FetchMetadata", cli, "*", &client.FetchMetadataRequest{}})
+			for _, s := range c15Live {
+				probes = append(probes, probe{"FetchPartitionMetadata", cli, s, &client.FetchPartitionMetadataRequest{Stream: s, Partition: 0}})
+			}
+		}
 		if err := w.normalize(); err != nil {
 			rep.Inconc(fmt.Sprintf("round %d: restoring the default world: %v", round, err))
 			return
@@ -1092,7 +1138,11 @@ func TestVerifC15Reload(t *testing.T) {
 					atomic.AddInt64(&during, 1)
 					want := old.has(p.cli, p.obj, p.method)
 					if (err == nil) != want && (err == nil || c15AuthzError(err)) {
-						rep.Violation("C15:reload:decision-changed-during-reload", fmt.Sprintf("round %d: %s by %s on %s is %v under the old and the new policy set, but a call made while the policy was being reloaded returned err=%v", round, p.method, p.cli, p.obj, want, err),
+						fp := "C15:reload:decision-changed-during-reload"
+						if cls := c15IdentityClass(p.cli); cls != "" {
+							fp = "C15:" + p.method + ":not-refused:caller=" + cls
+						}
+						rep.Violation(fp, fmt.Sprintf("round %d: %s by %s on %s is %v under the old and the new policy set, but a call made while the policy was being reloaded returned err=%v", round, p.method, p.cli, p.obj, want, err),
 							map[string]interface{}{"seed": kit.Seed(), "round": round})
 					}
 				}
@@ -1125,6 +1175,11 @@ func TestVerifC15Reload(t *testing.T) {
 				rep.Nontrivial(fmt.Sprintf("%s/%v→%v", p.method, was, now))
 				rep.Count("probes_flipped", 1)
 			}
+			kind := c15IdentityKind(p.cli)
+			if kind != "" {
+				rep.Count("identity_probes", 1)
+				rep.Nontrivial(p.method + "/caller:" + kind)
+			}
 			if (err == nil) == now {
 				continue
 			}
@@ -1132,8 +1187,11 @@ func TestVerifC15Reload(t *testing.T) {
 			if was != now {
 				fp = "C15:reload:stale-policy"
 			}
+			if kind != "" {
+				fp = "C15:" + p.method + ":not-refused:caller=" + c15IdentityClass(p.cli)
+			}
 			rep.Violation(fp, fmt.Sprintf("round %d: after the reload %s by %s on %s must be allowed=%v (old set: %v) but returned err=%v", round, p.method, p.cli, p.obj, now, was, err),
-				map[string]interface{}{"seed": kit.Seed(), "round": round, "client_lines": next.linesOf(p.cli, p.obj)})
+				map[string]interface{}{"seed": kit.Seed(), "round": round, "client_lines": next.linesOf(p.cli, p.obj), "client_identity": c15DescribeClient(p.cli)})
 		}
 		// a few full cases under the new policy, preferring methods with effects
 		calls := w.genCalls(methods, rng.Fork(2))
